@@ -13,7 +13,7 @@ Base == [n |-> 1, bundle |-> FALSE, ops |-> <<"new", "register", "agree", "obtai
          drop |-> {}, excl |-> {}, real |-> "mock", key |-> "ec", fam |-> Fam]
 
 \* registration, agreement, nonce headers missing, both kinds of account key (one domain, sequential)
-Acct ==
+AcctAll ==
   {[Base EXCEPT !.reg = r, !.agree = a, !.drop = dr, !.key = k] :
       r \in {"ok", "err", "bn", "nonext", "badlink"}, a \in {"ok", "err", "bn"},
       dr \in {{}, {"new-reg"}, {"reg"}, {"new-reg", "reg", "new-authz", "chal", "new-cert"}} \cup
@@ -22,6 +22,9 @@ Acct ==
   \cup {[Base EXCEPT !.drop = dr, !.ch = <<c>>, !.cert = ce] :
       dr \in {{"head", "new-authz"}, {"head", "chal"}, {"head", "new-reg", "reg"}, {"head", "new-reg", "reg", "new-authz"}},
       c \in {"valid", "p-valid"}, ce \in {"now", "d0-202"}}
+
+Acct ==
+  {sc \in AcctAll : Deep \/ sc.key = "ec" \/ (sc.reg = "ok" /\ sc.agree = "ok")}
 
 \* challenges of one domain: offers, excluded solvers, the application's provider, validation outcomes
 ChalQ ==
@@ -39,7 +42,7 @@ ChalD ==
 
 \* issuance, bundle, issuer link, then revoke / renew / a second obtain (issuer certificate cached)
 Tails == {<<>>, <<"revoke">>, <<"renew">>, <<"obtain">>, <<"renew", "revoke">>}
-CertF ==
+CertAll ==
   {[Base EXCEPT !.n = nd, !.az = [d \in 1..nd |-> "ok"], !.offer = [d \in 1..nd |-> "h"], !.prov = [d \in 1..nd |-> "ok"],
                 !.ch = [d \in 1..nd |-> "valid"],
                 !.cert = ce, !.bundle = b, !.issuer = iss, !.ops = Base.ops \o tl, !.revoke = rv, !.renew = rn, !.drop = dr] :
@@ -47,6 +50,9 @@ CertF ==
       ce \in {"now", "d0-202", "d1-202", "d1-200", "err", "bn"}, b \in BOOLEAN, iss \in {"ok", "err"},
       tl \in Tails, rv \in (IF Deep THEN {"ok", "err", "bn"} ELSE {"ok", "err"}), rn \in {"new", "same"},
       dr \in (IF Deep THEN {{}, {"new-cert"}} ELSE {{}})}
+\* a dimension is varied only where the session can tell the difference
+Has(sc, o) == \E j \in DOMAIN sc.ops : sc.ops[j] = o
+CertF == {sc \in CertAll : (sc.revoke = "ok" \/ Has(sc, "revoke")) /\ (sc.renew = "same" \/ Has(sc, "renew")) /\ (sc.issuer = "ok" \/ sc.bundle)}
 
 \* several domains: the authorizations are requested concurrently
 PerDom == {<<"ok", "ok", "valid">>, <<"ok", "ok", "invalid">>, <<"ok", "perr", "valid">>, <<"err", "ok", "valid">>, <<"nonext", "ok", "valid">>}
@@ -72,11 +78,16 @@ Real ==
       nd \in (IF Deep THEN {1, 2} ELSE {1}), c \in {"valid", "invalid", "p-valid"},
       r \in {"http", "tls"}, o \in (IF Deep THEN {"h", "t", "h+t"} ELSE {"ht"}) \cup {"h+t"}}
 
-Scripts == CASE Fam = "acct"  -> Acct
-             [] Fam = "chal"  -> IF Deep THEN ChalD ELSE ChalQ
-             [] Fam = "cert"  -> CertF
-             [] Fam = "multi" -> Multi
-             [] Fam = "real"  -> Real
+Tag(S, f) == {[sc EXCEPT !.fam = f] : sc \in S}
+Family(f) == CASE f = "acct"  -> Acct
+               [] f = "chal"  -> IF Deep THEN ChalD ELSE ChalQ
+               [] f = "cert"  -> CertF
+               [] f = "multi" -> Multi
+               [] f = "real"  -> Real
+Families == {"acct", "chal", "cert", "multi", "real"}
+
+Scripts == CASE Fam \in Families -> Family(Fam)
+             [] Fam = "all"   -> UNION {Tag(Family(f), f) : f \in Families}
              [] Fam = "one"   -> {Base}
              [] Fam = "dev2"  -> {[Base EXCEPT !.n = 2, !.az = <<"ok", "ok">>, !.prov = <<"ok", "ok">>, !.ch = <<"valid", c2>>,
                                                !.offer = <<"h", "h">>] : c2 \in {"valid", "pp-invalid"}}
